@@ -148,6 +148,18 @@ class Gen:
                 out.append("%send" % pad)
                 out.append("%sprint(%s() + %s())" % (pad, f, f))
                 out.append("%sprint(%s)" % (pad, c))
+                # a read of the captured variable held across a call that mutates it (left-to-right evaluation)
+                shape = r.randrange(5)
+                if shape == 0:
+                    out.append("%sprint(%s + %s())" % (pad, c, f))
+                elif shape == 1:
+                    out.append("%sprint((%s, %s(), %s))" % (pad, c, f, c))
+                elif shape == 2:
+                    out.append("%sprint(%s * 10 + %s() - %s)" % (pad, c, f, c))
+                elif shape == 3:
+                    out.append("%sprint([%s, %s(), %s] == [%s, %s, %s])" % (pad, c, f, c, self.int_expr(env, 0), c, c))
+                else:
+                    out.append("%sprint(%s() + %s)" % (pad, f, c))
                 env["ints"].append(c)
                 env["muts"].append(c)
                 env["fns"] = env["fns"] + [(f, 0)]
@@ -227,7 +239,13 @@ class Gen:
             out += ["  p := mkp(%s, %s)" % (self.int_expr(env, 1), self.int_expr(env, 1)),
                     "  p.x = p.x + %s" % self.int_expr(env, 1),
                     "  p.y += 1",
-                    "  print(p.x * 10 + p.y)"]
+                    "  print(p.x * 10 + p.y)",
+                    "  bump :: fn q: P -> int do",
+                    "    q.x += 1",
+                    "    q.x",
+                    "  end",
+                    "  print(p.x + bump(p))",
+                    "  print((p.x, bump(p), p.x))"]
         if self.has_enum:
             e = self.fresh("e")
             out += ["  %s := %s" % (e, r.choice(["E.Num %s" % self.int_atom(env, 1), "E.Two (1, %s)" % self.int_atom(env, 0), "E.None"])),
